@@ -249,7 +249,7 @@ Qed.
    no trailing zero octets (for families 1 and 2 the value is the full 4/16 octets) *)
 Definition apl_item_canon (r : list sval) : Prop :=
   match r with
-  | [VI fam; _; VB addr; _] => fam = 1 \/ fam = 2 \/ strip0 addr = addr
+  | [VI fam; VI _; VB addr; VI _] => fam = 1 \/ fam = 2 \/ strip0 addr = addr
   | _ => True
   end.
 
